@@ -47,6 +47,15 @@ func (x *Exec) collectWrites(n ast.Node, info *types.Info, pkg *PkgInfo, ws Writ
 		if !ok {
 			return true
 		}
+		if x.skipWrapped {
+			// frame of the un-wrapped part of a hook: the literal passed to ApplyFuncIfNoError is all-or-nothing by that
+			// function's contract and is not part of the caller's own (unprotected) writes
+			if se, ok := call.Fun.(*ast.SelectorExpr); ok && se.Sel.Name == "ApplyFuncIfNoError" && len(call.Args) == 2 {
+				if _, isLit := call.Args[1].(*ast.FuncLit); isLit {
+					return false
+				}
+			}
+		}
 		var obj types.Object
 		var hint string
 		switch f := unparen(call.Fun).(type) {
